@@ -37,6 +37,12 @@ def gen_cases(tier, seed):
         out.append({"seed": env.seed_for(seed, ID, tier, "wrapped", i), "mode": "wrapped"})
     for i in range(n // 20):
         out.append({"seed": env.seed_for(seed, ID, tier, "mutated", i), "mode": "mutated"})
+    for i in range(max(16, n // 60)):
+        # unpack and generator results at the edges: surplus / missing items of every kind of value (None, 0, False, "", containers), generator-valued calls
+        # under every retry setting (the consumer and run's caller get the generator object the call returned, as without retry)
+        s = env.seed_for(seed, ID, tier, "unpack_edges", i)
+        r = random.Random(env.seed_for(s, "descriptor"))
+        out.append({"seed": s, "mode": "unpack_edges", "W": r.choice([1, 2, 4]), "sched": r.choice(["default", "random"]), "retry": [None, 1, 2, 3, "custom"][i % 5]})
     for i in range(n // 12):
         # direct evaluation RAISES (a needed call raises, Exception or not): run must not return a value; an unneeded failing call changes nothing
         s = env.seed_for(seed, ID, tier, "raising", i)
@@ -59,6 +65,93 @@ def preempt_oracle(R, ir):
     if not irmod.struct_eq(R.result, want):
         return f"run returned {irmod.canon(R.result)[:200]}; direct evaluation gives {irmod.canon(want)[:200]}"
     return None
+
+
+def run_unpack_edges(desc):
+    import types
+
+    import uberjob
+
+    rng = random.Random(desc["seed"])
+    retry = desc["retry"]
+    if retry == "custom":
+        def retry(f):
+            def g(*a, **k):
+                return f(*a, **k)
+            return g
+    kw = dict(max_workers=desc["W"], scheduler=desc["sched"], progress=None, retry=retry)
+    bad = None
+    checked = 0
+    # (1) unpack(length) of iterables with exactly / fewer / more items, the surplus or missing item being any kind of value
+    odd = [None, 0, False, "", (), [], 0.0, b"", {}, 7, "x"]
+    for _ in range(12):
+        length = rng.randint(1, 3)  # (with length 0 nothing depends on the unpack call: it is not part of the run)
+        actual = rng.choice([length, length, length + 1, length + 2, length - 1])
+        items = [rng.choice(odd) for _ in range(actual)]
+        form = rng.choice(["list", "tuple", "generator", "iterator"])
+        if actual != length and form in ("generator", "iterator") and desc["retry"] not in (None, 1):
+            # a second attempt would see what the first attempt left of a one-shot iterable - a different input, not this property's business (DESIGN section 5)
+            form = rng.choice(["list", "tuple"])
+
+        def produce(items=items, form=form):
+            if form == "list":
+                return list(items)
+            if form == "tuple":
+                return tuple(items)
+            if form == "generator":
+                return (x for x in items)
+            return iter(list(items))
+
+        plan = uberjob.Plan()
+        u = plan.unpack(plan.call(produce), length)
+        exc = res = None
+        try:
+            res = uberjob.run(plan, output=list(u), **kw)
+        except BaseException as e:  # noqa
+            exc = e
+        checked += 1
+        if actual == length:
+            if exc is not None:
+                bad = f"unpack({length}) of a {form} with exactly {length} items {items!r} raised {exc!r:.120}"
+            elif len(res) != length or any(a is not b and a != b for a, b in zip(res, items)):
+                bad = f"unpack({length}) of {form} {items!r} gave {res!r}"
+        elif exc is None:
+            bad = (f"unpack({length}) of a {form} that yields {actual} items {items!r} returned {res!r}: unpacking a, b = iterable raises ValueError when the "
+                   f"iterable has {'more' if actual > length else 'fewer'} items, whatever those items are")
+        elif not isinstance(exc, uberjob.CallError) or not isinstance(exc.__cause__, ValueError):
+            bad = f"unpack({length}) of a {form} with {actual} items raised {exc!r:.100} (cause {exc.__cause__!r:.80}), expected CallError from ValueError"
+        if bad:
+            break
+    # (2) a generator-valued call: its consumer, and the caller of run, receive the generator object itself
+    if bad is None:
+        def gen():
+            yield 1
+            yield 2
+
+        def kind(x):
+            return type(x).__name__, list(x)
+
+        plan = uberjob.Plan()
+        g = plan.call(gen)
+        k = plan.call(kind, g)
+        g2 = plan.call(gen)
+        try:
+            rk, rg = uberjob.run(plan, output=(k, g2), **kw)
+        except BaseException as e:  # noqa
+            bad = f"generator-valued calls: run raised {e!r:.120}"
+        else:
+            checked += 1
+            if rk != ("generator", [1, 2]):
+                bad = f"the consumer of a generator-valued call received a {rk[0]} holding {rk[1]!r}; the call returned a generator (as it does without retry)"
+            elif not isinstance(rg, types.GeneratorType):
+                bad = f"run returned a {type(rg).__name__} for an output call that returns a generator"
+            elif list(rg) != [1, 2]:
+                bad = "the generator run returned for an output call had already been consumed"
+    res_ = {"status": "ok", "counters": {"runs": checked, "unpack_edge_runs": checked}, "sets": {"features_exercised": ["unpack_edges"]}, "nontrivial": True,
+            "sig": f"unpack_edges|{desc['seed'] % 100000}|{desc['retry']}"}
+    if bad:
+        res_.update(status="violation", mechanism="value-mismatch", detail=f"[unpack_edges W={desc['W']} sched={desc['sched']} retry={desc['retry']}] {bad}")
+    return res_
 
 
 def run_raising(desc):
@@ -329,6 +422,8 @@ def run_case(desc):
         return run_wrapped(desc)
     if desc.get("mode") == "mutated":
         return run_mutated(desc)
+    if desc.get("mode") == "unpack_edges":
+        return run_unpack_edges(desc)
     if desc.get("mode") == "raising":
         return run_raising(desc)
     if desc.get("mode") == "longchain":
